@@ -30,6 +30,8 @@ def entries(t):
     E.append(('base64-decode-sequence', 'Base64::decode_sequence', 'string', None, L, b'', b''))
     E.append(('base64-char-to-number', 'Base64::convert_base64_char_to_number', 'char', None, (0,), b'', b''))
     E.append(('base64-number-to-char', 'Base64::convert_number_to_base64_char', 'u8', None, (0,), b'', b''))
+    # one range spec against a file length (any u64): digits and '-' only, so that the numeric branches are reached
+    E.append(('range-spec', 'Range::parse_range_in_content_range', 'range+len', [ord(c) for c in '0123456789- '], (0, 1, 2, 3) if q else (0, 1, 2, 3, 4, 5), b'', b''))
     E.append(('header', 'Header::parse_header', 'string', None, L, b'', b''))
     E.append(('content-disposition', 'ContentDisposition::parse', 'string', None, L, b'', b''))
     E.append(('content-disposition-form', 'ContentDisposition::parse', 'string', None, L, b'form-data; ', b''))
@@ -75,6 +77,8 @@ def case(prog, params):
         args = [Int('char', cv)]; data = None
     elif kind == 'u8':
         cv = z3.BitVec('nb', 8); args = [Int('u8', cv)]; data = None
+    if kind == 'range+len':
+        flen = z3.BitVec('flen', 64); args = [Int('u64', flen), data]
     if kind == 'bytes+boundary':
         bd = SymStr.fresh('bd', 2, cons, ascii_only=True); args = [data, bd]
     elif kind == 'cursor':
@@ -103,6 +107,7 @@ def case(prog, params):
             inp = model_bytes(m, data) if data is not None else (chr(model_int(m, args[0].v)).encode('utf-8') if kind == 'char' else bytes([model_int(m, args[0].v)]))
             w = {'entry': name, 'fn': fn, 'kind': kind, 'input': inp.hex()}
             if kind == 'bytes+boundary': w['boundary'] = model_bytes(m, args[1]).hex()
+            if kind == 'range+len': w['boundary'] = str(model_int(m, args[0].v)).encode().hex()
             site = _site(o)
             res['violations'].append({'key': 'C20:panic:%s:%s' % (fn, site), 'text': '%s panics (%s at %s) on %r' % (fn, kk[1], o.outcome[2], inp), 'witness': w})
         elif kk[0] == 'stop' and kk[1] == 'bound:unroll':
